@@ -8,6 +8,7 @@ mod search;
 mod grid;
 mod scc;
 mod cost;
+mod units;
 
 fn main() {
     let args: Vec<String> = std::env::args().collect();
@@ -22,6 +23,7 @@ fn main() {
         "grid" => grid::main(rest),
         "scc" => scc::main(rest),
         "cost" => cost::main(rest),
+        "units" => units::main(rest),
         other => {
             eprintln!("unknown subcommand {}", other);
             2
